@@ -94,7 +94,10 @@ pub fn main(args: &[String]) -> i32 {
                 std::cmp::Ordering::Equal => 0,
                 std::cmp::Ordering::Greater => 1,
             };
-            writeln!(out, "{}", json!({"e": "tag_pair", "id": id, "a": name_of(a), "b": name_of(b), "ka": ka, "kb": kb, "eq": a == b, "cmp": cmp,
+            // Tag == &str compares with the protocol name, exactly like tag-to-tag equality
+            let bname = String::from_utf8(name_of(b)).unwrap_or_default();
+            let str_eq = *a == bname.as_str();
+            writeln!(out, "{}", json!({"e": "tag_pair", "id": id, "a": name_of(a), "b": name_of(b), "ka": ka, "kb": kb, "eq": a == b, "str_eq": str_eq, "cmp": cmp,
                 "pcmp_same": a.partial_cmp(b) == Some(a.cmp(b)), "hash_eq": h(a) == h(b), "map_hit": hm.contains_key(b), "btree_hit": bm.contains_key(b), "set_len": hs.len()})).unwrap();
             id += 1;
         }
